@@ -128,10 +128,10 @@ func (w *world) directStoreKeys(fn *ssa.Function) map[string]bool {
 			}
 		}
 	}
-	for k := range ms.any {
+	for _, k := range sortedKeys(ms.any) {
 		out[k] = true
 	}
-	for k := range ms.fresh {
+	for _, k := range sortedKeys(ms.fresh) {
 		out[k] = true
 	}
 	if ms.all {
@@ -186,16 +186,16 @@ func (g *fgen) setupGinvs() {
 		gi := &ginv{decl: inv, typ: t, keys: map[string]bool{}}
 		// keys the invariant reads: translate once and scan for heap names
 		before := map[string]bool{}
-		for k := range g.heapSort {
+		for _, k := range sortedKeys(g.heapSort) {
 			before[k] = true
 		}
 		f := g.ginvFormula(gi, g.entry)
-		for k := range g.heapSort {
+		for _, k := range sortedKeys(g.heapSort) {
 			if strings.Contains(f, "_"+k+" ") || strings.Contains(f, "_"+k+")") || strings.Contains(f, "_"+k+"!") {
 				gi.keys[k] = true
 			}
 		}
-		for k := range gi.keys {
+		for _, k := range sortedKeys(gi.keys) {
 			if direct[k] || direct["*"] {
 				gi.check = true
 			}
